@@ -394,6 +394,18 @@ func c19diff(c *Ctx) {
 					})
 					break
 				}
+				if r.P(12) {
+					// the reader handed to ReadFrom copies what it reads into the SAME buffer (io.TeeReader onto it, a reader
+					// that logs through it): a nested Write while ReadFrom's Read is running
+					payload := bytes.Repeat([]byte{byte('a' + r.Intn(20))}, gen.Pick(r, []int{1, 3, 200, 511, 512, 600, 1200, 5000}))
+					name = fmt.Sprintf("ReadFrom(io.TeeReader(%d bytes, the buffer itself))", len(payload))
+					c.R.Add("readfrom_calls_whose_reader_writes_to_the_buffer", 1)
+					one(name, func(b bufAPI) (string, error) {
+						n, err := b.ReadFrom(io.TeeReader(bytes.NewReader(payload), b))
+						return fmt.Sprintf("%d len=%d %x", n, b.Len(), clipB(b.Bytes(), 96)), err
+					})
+					break
+				}
 				var steps []int
 				for i := r.Intn(5); i >= 0; i-- {
 					steps = append(steps, gen.Pick(r, []int{1, 5, 100, 511, 512, 513, 2000, 0, 0, -1, -2, -3, -4, -4, -5, -6, -7, -8, -9, -10, -11, -12}))
